@@ -70,6 +70,7 @@ type FuncSpec struct {
 	LoopMod   map[int][]string // extra havoc names
 	LoopOwned map[int][]string
 	LoopGhost map[int][]*LoopGhost // specification-only loop variables
+	Excludes  map[string]bool  // `excludes resulttrue|resultfalse|errnil`: an outcome the contract rules out on purpose
 	Pathwise  bool             // no state merging at joins: every obligation is proved path by path
 	Unlocked  bool             // callback must be invoked with no level>=1 lock held
 	Covers    []*Clause
@@ -157,7 +158,7 @@ func NewSpecDB() *SpecDB {
 var keywords = map[string]bool{"func": true, "callback": true, "method": true, "props": true, "requires": true,
 	"ensures": true, "onpanic": true, "loop": true, "at": true, "maypanic": true, "effect": true, "trusted": true,
 	"ghost": true, "axiom": true, "event": true, "guarded": true, "immutable": true, "lockinv": true, "level": true,
-	"inline": true, "def": true, "unlocked": true, "cover": true, "alias": true, "initwriter": true, "setteronly": true, "atomic": true, "effectstruct": true, "chaninv": true, "fact": true, "ghostheap": true, "modifies": true, "iterate": true, "pathwise": true, "decreases": true}
+	"inline": true, "def": true, "unlocked": true, "cover": true, "alias": true, "initwriter": true, "setteronly": true, "atomic": true, "effectstruct": true, "chaninv": true, "fact": true, "ghostheap": true, "modifies": true, "iterate": true, "pathwise": true, "decreases": true, "excludes": true}
 
 var reLabel = regexp.MustCompile(`^\[([^\]]+)\]\s*`)
 var reProps = regexp.MustCompile(`^\{([^}]*)\}\s*`)
@@ -240,6 +241,13 @@ func (db *SpecDB) LoadFile(path string) error {
 			cur.Unlocked = true
 		case "pathwise":
 			cur.Pathwise = true
+		case "excludes":
+			if cur.Excludes == nil {
+				cur.Excludes = map[string]bool{}
+			}
+			for _, w := range strings.Fields(rest) {
+				cur.Excludes[w] = true
+			}
 		case "alias":
 			cur.Alias = strings.TrimSpace(rest)
 		case "fact":
